@@ -510,7 +510,7 @@ def gen_options(rng, cfg, rate=0.3, grid=False):
     if rng.random() < rate:
         r = rng.random()
         if r < 0.25:
-            out["tau"] = rng.choice([0, enc(0.0)])
+            out["tau"] = rng.choice([0, enc(0.0), enc(0.0), enc(-0.0)])
         elif r < 0.33:
             out["tau"] = enc(1e-12 * s)
         elif r < 0.43:
